@@ -298,13 +298,17 @@ class SupervisedOPF(OPF):
                     non_prototypes += 1
 
             for err in errors:
+                err = err[0]
                 ctr = non_prototypes
 
                 while ctr > 0:
-                    j = int(r.generate_uniform_random_number(0, len(X_train)))
+                    j = int(r.generate_uniform_random_number(0, len(X_train))[0])
 
                     if self.subgraph.nodes[j].status != c.PROTOTYPE:
-                        X_train[j, :], X_val[err, :] = X_val[err, :], X_train[j, :]
+                        X_train[j, :], X_val[err, :] = (
+                            X_val[err, :].copy(),
+                            X_train[j, :].copy(),
+                        )
                         Y_train[j], Y_val[err] = Y_val[err], Y_train[j]
 
                         non_prototypes -= 1
